@@ -528,6 +528,7 @@ package table
 //@   results err
 //@   requires m != nil
 //@   ensures err == nil ==> (m.Kv != nil) == isRec(bytesOf(dAtA)) && (m.Kv != nil ==> fresh(m.Kv))
+//@   ensures err == nil ==> m.Type == cmdKind(dAtA) && 0 <= m.Type && m.Type <= 6
 //@   modifies fields(m)
 //@ func backoff.NewExponentialBackOff
 //@   assumed
